@@ -56,7 +56,12 @@ func harnessOverlay(importPath string, files []string) (map[string][]byte, strin
 		return nil, "", err
 	}
 	ov[filepath.Join(dir, "zz_vx_rt.go")] = []byte(strings.Replace(string(rt), "package PKG", "package "+pkgName, 1))
+	instrument := false
 	for _, f := range files {
+		if f == "gen:instrument" {
+			instrument = true
+			continue
+		}
 		if strings.HasPrefix(f, "gen:") {
 			parts := strings.Split(f, ":")
 			var body, imports string
@@ -105,6 +110,41 @@ func harnessOverlay(importPath string, files []string) (map[string][]byte, strin
 		// harness files are written with "package PKG" so they can be moved between packages
 		s = strings.Replace(s, "package PKG", "package "+pkgName, 1)
 		ov[filepath.Join(dir, "zz_vx_"+strings.ReplaceAll(f, "/", "_"))] = []byte(s)
+	}
+	if instrument {
+		// schedule instrumentation of the package under test and of the harness files (overlay only)
+		ents, err := os.ReadDir(dir)
+		if err != nil {
+			return nil, "", err
+		}
+		for _, e := range ents {
+			n := e.Name()
+			if e.IsDir() || !strings.HasSuffix(n, ".go") || strings.HasSuffix(n, "_test.go") || strings.HasPrefix(n, "zz_vx_") {
+				continue
+			}
+			p := filepath.Join(dir, n)
+			src, err := os.ReadFile(p)
+			if err != nil {
+				return nil, "", err
+			}
+			out, changed, err := instrumentSource(p, src)
+			if err != nil {
+				return nil, "", fmt.Errorf("instrumenting %s: %v", p, err)
+			}
+			if changed {
+				ov[p] = out
+			}
+		}
+		for p, src := range ov {
+			if !strings.HasPrefix(filepath.Base(p), "zz_vx_") || filepath.Base(p) == "zz_vx_rt.go" {
+				continue
+			}
+			out, _, err := instrumentSource(p, src)
+			if err != nil {
+				return nil, "", fmt.Errorf("instrumenting %s: %v", p, err)
+			}
+			ov[p] = out
+		}
 	}
 	return ov, pkgName, nil
 }
